@@ -14,7 +14,7 @@ from .. import core, tlc
 from ..tagged import tag, untag
 
 PROP = "C17"
-KEYS = ["a", "b.c"]
+KEYS = ["type", "b.c"]
 ALL_LEAVES = [1, None, 2, [1]]
 
 
@@ -47,7 +47,7 @@ def rand_value(rnd: random.Random, depth: int):
 
 def rand_dict(rnd: random.Random, depth: int):
     d = {}
-    for k in ["a", "b.c", "b", "c", "n", ""]:
+    for k in ["type", "b.c", "b", "c", "n", ""]:
         if rnd.random() < 0.5:
             d[k] = rand_value(rnd, depth)
     return d
